@@ -9,6 +9,7 @@ REPO = os.environ.get("VERIF_REPO", "/repo")
 COQ = os.path.join(VERIF, "coq")
 BUILD = os.path.join(VERIF, "build")
 NCPU = max(1, min(16, os.cpu_count() or 1))
+COQ_MEM_KB = 14000000      # address-space cap per coqc process (kB)
 
 CXXFLAGS = ["-std=c++17", "-O1", "-g", "-fsanitize=address,undefined", "-fno-sanitize-recover=all",
             "-DBITSERIALIZER_VERIF", "-I" + os.path.join(REPO, "include"), "-I" + os.path.join(REPO, "src"),
@@ -150,7 +151,8 @@ def coq_make(targets, timeout=3000):
             os.path.getmtime(os.path.join(COQ, "Makefile")) < os.path.getmtime(os.path.join(COQ, "_CoqProject")):
         subprocess.run(["coq_makefile", "-f", "_CoqProject", "-o", "Makefile"], cwd=COQ, check=True,
                        capture_output=True)
-    p = subprocess.run(["timeout", str(timeout), "make", "-k", "-j%d" % NCPU] + list(targets), cwd=COQ,
+    # every coqc under a memory cap (a runaway proof must fail the obligation, not take the machine down)
+    p = subprocess.run(["timeout", str(timeout), "bash", "-c", "ulimit -v %d; exec make -k -j%d %s" % (COQ_MEM_KB, NCPU, " ".join(targets))], cwd=COQ,
                        capture_output=True, text=True)
     return p.returncode == 0, p.stdout + p.stderr
 
@@ -198,7 +200,7 @@ def coq_properties(prop):
     global ALLOWED_AXIOMS
     ALLOWED_AXIOMS = set(ALLOWED_AXIOMS_BY_PROP.get(prop[:3], set()))
     ok_make, mlog = coq_make(["Properties_%s.vo" % prop])
-    p = subprocess.run(["timeout", "1800", "coqc", "-Q", ".", "BS", fn], cwd=COQ, capture_output=True, text=True)
+    p = subprocess.run(["timeout", "1800", "bash", "-c", "ulimit -v %d; exec coqc -Q . BS %s" % (COQ_MEM_KB, fn)], cwd=COQ, capture_output=True, text=True)
     out = p.stdout
     blocks = re.split(r"^(?=Closed under the global context|Axioms:)", out, flags=re.M)
     blocks = [b for b in blocks if b.startswith("Closed under") or b.startswith("Axioms:")]
